@@ -23,6 +23,11 @@ pub const EVENT_POINTS: &[&str] = &[
   "commit.done",
 ];
 
+thread_local! {
+  /// set by the generator for scenarios that stay within the recoverable depth
+  static CALM: std::cell::Cell<bool> = const { std::cell::Cell::new(false) };
+}
+
 fn reorg_features() -> Features {
   Features {
     txs_per_block: (0, 2),
@@ -39,7 +44,115 @@ fn reorg_features() -> Features {
   }
 }
 
+/// Thorough tier: the first seeds of a batch enumerate, for one small
+/// history, EVERY (named point, occurrence, depth) at which a reorganisation
+/// can land inside the update.
+fn gen_c14_enumerated(seed: u64) -> Option<Scenario> {
+  let index = seed & 0xffff_ffff;
+  let base = seed >> 32;
+  if index >= 20_000 {
+    return None;
+  }
+  let root = Rng::new(base.wrapping_mul(0x9e37_79b9).wrapping_add(1414));
+  let mut crng = root.fork("config");
+  let mut wrng = root.fork("workload");
+  let mut config = gen_config(&mut crng);
+  config.index_sats = crng.chance(1, 2);
+  config.index_addresses = crng.chance(1, 2);
+  config.index_runes = crng.chance(1, 2);
+  config.commit_interval = match crng.below(3) {
+    0 => 5000,
+    _ => 1 + crng.below(3) as u32,
+  };
+  // ord can undo depths below (max savepoints - 1) x interval + height % interval
+  config.savepoint_interval = 2 + crng.below(3) as u32;
+  config.max_savepoints = 3 + crng.below(2) as u32;
+  config.integration_test = false;
+  let f = Features::swarm(&reorg_features(), &mut wrng);
+  // long enough for every savepoint slot to be in use when the event lands
+  let first = (config.savepoint_interval * config.max_savepoints) as usize + 1 + wrng.usize(3);
+  let second = 3 + wrng.usize(4);
+  let lag = crng.below(32) as u32;
+  let mut ops = vec![
+    Op::Mine(gen_chain(&mut wrng, &f, first)),
+    Op::Update(UpdateSpec {
+      lag: 31,
+      ..Default::default()
+    }),
+    Op::Mine(gen_chain(&mut wrng, &f, second)),
+    Op::Update(UpdateSpec {
+      lag,
+      ..Default::default()
+    }),
+    Op::Update(UpdateSpec {
+      lag: 31,
+      ..Default::default()
+    }),
+  ];
+  let height = (first + second) as u32;
+  // probe the update the event will land in
+  let mut ex = Exec::new(&config, seed);
+  let mut hits: Vec<(String, u32)> = Vec::new();
+  for (i, op) in ops.iter().enumerate() {
+    match op {
+      Op::Mine(b) => ex.mine(b),
+      Op::Update(u) => {
+        let r = ex.update(u);
+        if r.result.is_err() {
+          ex.finish();
+          return None;
+        }
+        if i == 3 {
+          for (name, count) in &r.outcome.points {
+            if EVENT_POINTS.contains(&name.as_str()) {
+              hits.push((name.clone(), *count));
+            }
+          }
+        }
+      }
+      _ => {}
+    }
+  }
+  ex.finish();
+  let max_depth = (config.savepoint_interval * config.max_savepoints).min(height);
+  let mut positions: Vec<(String, u32, u32)> = Vec::new();
+  for (name, count) in &hits {
+    for nth in 0..*count {
+      for depth in 1..=max_depth {
+        positions.push((name.clone(), nth, depth));
+      }
+    }
+  }
+  let total = positions.len() as u64;
+  if index >= total {
+    return None;
+  }
+  let (point, nth, depth) = positions.swap_remove(index as usize);
+  // the same new branch for the same depth, whatever the landing point
+  let mut brng = root.fork("branch").fork(&depth.to_string());
+  let blocks = gen_chain(&mut brng, &f, depth as usize + 1);
+  if let Op::Update(u) = &mut ops[3] {
+    u.node_events.push(PointEvent {
+      point,
+      nth,
+      event: NodeEvent::Reorg { depth, blocks },
+    });
+  }
+  Some(Scenario {
+    seed,
+    profile: format!("C14/enumerated total={total} index={index}"),
+    config,
+    ops,
+    server: None,
+  })
+}
+
 pub fn gen_c14(seed: u64, thorough: bool) -> Scenario {
+  if thorough
+    && let Some(sc) = gen_c14_enumerated(seed)
+  {
+    return sc;
+  }
   let root = Rng::new(seed);
   let mut crng = root.fork("config");
   let mut wrng = root.fork("workload");
@@ -53,10 +166,11 @@ pub fn gen_c14(seed: u64, thorough: bool) -> Scenario {
     _ => 1 + crng.below(8) as u32,
   };
   config.savepoint_interval = 1 + crng.below(12) as u32;
-  config.max_savepoints = 1 + crng.below(4) as u32;
+  config.max_savepoints = if crng.chance(1, 5) { 1 } else { 2 + crng.below(3) as u32 };
   config.integration_test = crng.chance(1, 4);
   let f = Features::swarm(&reorg_features(), &mut wrng);
 
+  CALM.with(|c| c.set(srng.chance(3, 5)));
   let mut ops = Vec::new();
   let mut height = 0u32; // node tip
   let rounds = 1 + srng.usize(if thorough { 5 } else { 3 });
@@ -132,6 +246,7 @@ pub fn gen_c14(seed: u64, thorough: bool) -> Scenario {
     lag: 31,
     ..Default::default()
   }));
+  CALM.with(|c| c.set(false));
   Scenario {
     seed,
     profile: "C14/reorg".into(),
@@ -143,9 +258,19 @@ pub fn gen_c14(seed: u64, thorough: bool) -> Scenario {
 
 fn reorg_depth(rng: &mut Rng, height: u32, config: &Config) -> u32 {
   let span = config.savepoint_interval * config.max_savepoints;
-  let d = match rng.below(6) {
+  if CALM.with(|c| c.get()) {
+    // every reorganisation of this scenario is one ord should be able to undo,
+    // so that the run ends with the comparison against a from-scratch index
+    let undoable = (config.savepoint_interval * config.max_savepoints.saturating_sub(1)).saturating_sub(2).max(1);
+    return (1 + rng.below(u64::from(undoable)) as u32).min(height.max(1));
+  }
+  // ord counts from the first block it cannot connect: a reorganisation that abandons d blocks has depth d + 1 there
+  let undoable = (config.savepoint_interval * config.max_savepoints.saturating_sub(1)).saturating_sub(2).max(1);
+  let d = match rng.below(9) {
     0 => 1,
     1 => 1 + rng.below(3) as u32,
+    // what ord classifies as recoverable when the savepoints are in place
+    6..=8 => 1 + rng.below(u64::from(undoable)) as u32,
     // around what ord considers recoverable
     2 | 3 => (span + rng.below(5) as u32).saturating_sub(2).max(1),
     4 => 1 + rng.below(u64::from(span.max(1))) as u32,
@@ -297,6 +422,15 @@ pub fn run_c14(sc: &Scenario) -> RunReport {
       s.world.best.len() as u32,
     )
   });
+  if let Some(rest) = sc.profile.strip_prefix("C14/enumerated ") {
+    for part in rest.split_whitespace() {
+      if let Some((k, val)) = part.split_once('=')
+        && let Ok(n) = val.parse::<u64>()
+      {
+        ctx.report.facts.insert(format!("c14.enum.{k}"), n);
+      }
+    }
+  }
   ctx.report.facts.insert("reorg.rollbacks".into(), recovered);
   ctx.report.facts.insert("reorg.unrecoverable".into(), u64::from(unrecoverable));
   let facts = std::mem::take(&mut ctx.report.facts);
